@@ -62,6 +62,8 @@ def oracleWilson (conf : Confidence Float) (n k : Nat) (z : Float) (g : List Str
   else match parseOkUnit g with
   | none => [s!"not-ok:{cls}"]
   | some (lo, hi) =>
+    -- an infinite critical value (a level within an ulp of 1): the roots of the score equation tend to 0 and 1
+    if !z.isFinite then (if lo == 0.0 && hi == 1.0 then [] else ["infinite-critical-value:expected-[0,1]"]) else
     let tol := 64.0 * eps53 * fmax 1.0 (z * z)
     let res (p : Float) : List String :=
       match scoreResidual n k p z with
@@ -93,7 +95,8 @@ def oracleWald (conf : Confidence Float) (n k : Nat) (z : Float) (g : List Strin
     else match parseOkUnit g with
     | none => if elo > ehi - tol then [] else [s!"wald-not-ok:{cls}"]
     | some (a, b) =>
-      if absF (a - elo) ≤ tol && absF (b - ehi) ≤ tol then [] else [s!"wald-bounds-off(expected {encF64 elo} {encF64 ehi})"]
+      if (a == elo || absF (a - elo) ≤ tol) && (b == ehi || absF (b - ehi) ≤ tol) then []
+      else [s!"wald-bounds-off(expected {encF64 elo} {encF64 ehi})"]
 
 /-- `wilson p conf n k => ci_wilson | ci | Stats::new(n,k).ci | ci_z_normal | is_significant` -/
 def wilsonOp (args : List String) : Option OpEval := do
